@@ -295,7 +295,7 @@ class _Val:
         self.kind, self.rng, self.via_float, self.trunc_of, self.expr = kind, rng, via_float, trunc_of, expr
 
 
-@rule("NK1", "exact 64-bit timestamp fields are not computed through float64 beyond 2**53", floor=2)
+@rule("NK1", "exact 64-bit timestamp fields are not computed through float64 beyond 2**53", floor=1)
 def nk1(ctx, R):
     prog = ctx.prog
     fi = prog.func("types.TimeStamp.__init__")
@@ -384,7 +384,10 @@ def nk1(ctx, R):
     run(fi.node.body)
     packs = [c for c in walk_body(fi.node) if isinstance(c, ast.Call) and call_name(c) in ("_struct_pack", "struct.pack")]
     if not packs:
-        raise AnchorMissing("types.TimeStamp.__init__: struct pack")
+        packs = [c for c in walk_body(fi.node) if isinstance(c, ast.Call) and isinstance(c.func, ast.Attribute) and c.func.attr == "pack"]
+    if not packs:
+        R.unrecognised("types.TimeStamp.__init__::struct pack", fi.where(), "where the timestamp's two fields are packed was not recognised")
+        return
     seen = set()
     for e, rng in findings:
         # name the statement that holds the conversion
